@@ -56,6 +56,7 @@ pub struct GoRec {
     pub stop_read_seq: Option<u64>,
     pub stop_store_tp: Option<u64>,
     pub stop_store_seq: Option<u64>,
+    pub stop_store_t: Option<u64>,
     pub stop_kind: Option<&'static str>,
     pub search_exit_polls: Option<u64>,
     pub search_exited: bool,
@@ -515,6 +516,7 @@ pub fn analyse_session(case: &Case, out: &Outcome) -> Analysis {
                         if gos[gi].stop_read_seq.is_some() && gos[gi].stop_store_tp.is_none() {
                             gos[gi].stop_store_tp = Some(e.tp);
                             gos[gi].stop_store_seq = Some(e.seq);
+                            gos[gi].stop_store_t = Some(e.t);
                             if gos[gi].search_start_seq.is_none() {
                                 a.probe("stop processed before the search thread started");
                             }
@@ -640,6 +642,14 @@ pub fn analyse_session(case: &Case, out: &Outcome) -> Analysis {
                 if later > 1 && g.raise_seq.map_or(true, |r| r < t0) {
                     a.v("C07", "R2-not-prompt", g.cmd, format!("`{}`: {} further iterations were completed and reported after the stop had arrived", g.line, later));
                 }
+            }
+        }
+        // ... and in simulated time: once `stop` (or `ucinewgame`) has lowered the flag the answer follows within the polls
+        // the scheduler itself may interpose; time passes only at node polls and when nothing can run
+        if let (Some(t0), true) = (g.stop_store_t, g.n_best > 0) {
+            let slack = (case.params.fair as u64 + 3) * case.params.node_cost;
+            if g.best_seq > g.stop_store_seq.unwrap_or(0) && g.best_t > t0 + slack {
+                a.v("C07", "R2-not-prompt", g.cmd, format!("`{}`: the bestmove came {} ns after the stop had been processed", g.line, g.best_t - t0));
             }
         }
         // C08-R1 depth limit, R3 monotone depth
